@@ -85,6 +85,19 @@ def run(ctx):
     for k in range(12 if q else 150):       # the two types with target-dependent / struct-heavy encodings get more sources
         sources.append(("MetaModule+%d" % k, api.Synth(gen.rand_module(rnd, cl["MetaModule"], spec, depth=2, in_project=False)).read(), False))
         sources.append(("Sampler+%d" % k, api.Synth(gen.rand_module(rnd, cl["Sampler"], spec, depth=1, in_project=False)).read(), False))
+    # files NOT written by this library: encoded by TLC (RVFormat!Write) from abstract descriptions
+    enc = []
+    for i in range(15 if q else 300):
+        o = fmt.projection.project_any(gen.rand_project(rnd, spec, depth=rnd.choice([0, 1]), small=True), spec)
+        o["proj"]["vers"] = rnd.choice([[1, 9, 4, 0], [1, 9, 5, 0], [2, 0, 0, 0], [2, 1, 2, 1]])
+        o["proj"]["time"], o["proj"]["reps"] = rnd.choice([(0, 7), (0, -3), (5, 0), (9, 9), (0, 0), (-2, 4)])
+        enc.append({"id": "ref%d" % i, "events": [{"op": "encode", "obj": o}]})
+    res = fmt.validate(ctx, enc, "c05_encode", [], path)
+    ctx.cov["traces_validated_against_impl"] -= len(enc)
+    for tr in enc:
+        msgs = res[tr["id"]].get("other", [])
+        if msgs:
+            sources.append((tr["id"] + ".spec-encoded", tlv.from_json_nested(msgs[0]["chunks"]), False))
     base = list(sources)
     for name, data, _ in base:
         for k in range(2 if q else 8):
